@@ -435,6 +435,24 @@ def r6_placeholder_named_identifiers(ctx, sym, mod):
                       "attribute 'id'")
 
 
+def r7_equal_nodes_match(ctx, sym, mod):
+    ctx.rule('R7', "StretchyTreeMatcher.shallow_match_main executed abstractly on pairs of model nodes that are equal "
+                   "(the rows of the C08/C10 content table whose expected answer is 'a mapping', incl. equal literals "
+                   "and names that are different objects, as two parses of the same text give): each pair yields the "
+                   "mapping - a node of the student's program matches its own copy in the pattern")
+    from .c08 import shallow_match_table
+    fn = mod.func('StretchyTreeMatcher.shallow_match_main')
+    n = 0
+    for tag, desc, got, want in shallow_match_table(ctx, sym):
+        if want is not True:
+            continue
+        n += 1
+        ctx.check(got is True, 'R7', 'shallow_match_main:equal-nodes-match:' + desc, mod, fn,
+                  "%s: %s, expected a mapping" % (desc, 'no mapping' if got is False else got),
+                  "`big = 100000000000000000000` used as its own pattern does not match", construct='shallow_match_main')
+    ctx.floor('R7', 'equal pairs', n, 20)
+
+
 def run(ctx):
     sym = Symbols(ctx.repo)
     mod = ctx.repo.module(MATCH)
@@ -444,6 +462,7 @@ def run(ctx):
     r4_backtracking_is_side_effect_free(ctx, sym)
     r5_pattern_text(ctx, sym, mod)
     r6_placeholder_named_identifiers(ctx, sym, mod)
+    r7_equal_nodes_match(ctx, sym, mod)
     ctx.assume("completeness of the search as a whole (sibling windows, youngest-sibling bookkeeping, meta-field "
                "matching along the recursion, dropped sibling statements, consistent _var_ renaming) is an inductive "
                "property of the algorithm and is NOT decided; only the three structural clauses above are")
